@@ -1083,12 +1083,14 @@ struct Sample
     bool lin;  // regime: step * dE/dx < linear_loss_limit * E (documented hand-over condition)
 };
 constexpr double C_LOSS = 32;  // tolerance table: monotonicity bracket l + C_LOSS * eps * E
+constexpr double C_NEG = 1024;  // scope of deviation F-LOSS-2: -C_NEG * eps * E <= loss < 0
 
 void emit_loss(verif::NdjsonWriter& w, std::string const& real, double energy, double range,
                double limit, std::vector<Sample> const& st)
 {
     verif::Ranker rank;
     rank.add(0.0);
+    rank.add(-C_NEG * EPS * energy);
     rank.add(energy);
     rank.add(range);
     for (auto const& x : st)
@@ -1112,6 +1114,7 @@ void emit_loss(verif::NdjsonWriter& w, std::string const& real, double energy, d
              {"real", real},
              {"lim", limit},
              {"zero", rank(0.0)},
+             {"zlo", rank(-C_NEG * EPS * energy)},
              {"E", rank(energy)},
              {"range", rank(range)},
              {"steps", js}};
